@@ -107,7 +107,7 @@ fn parse_data_section(
     stream: &Stream,
     position: &Position,
 ) -> Result<(Model, Vec<StreamModels>), ModelParseError> {
-    use nom::{combinator::all_consuming, sequence::terminated};
+    use nom::sequence::terminated;
 
     let duration_model = parse_model(
         input,
@@ -153,11 +153,11 @@ fn parse_data_section(
                 .stream_win
                 .iter()
                 .map(|win| {
-                    Ok(
-                        all_consuming(terminated(WindowParser::parse_window_row, ParseTarget::sp))
-                            .parse(&input[win.0..=win.1])?
-                            .1,
-                    )
+                    Ok(parse_all(
+                        terminated(WindowParser::parse_window_row, ParseTarget::sp),
+                        *win,
+                    )(input)?
+                    .1)
                 })
                 .collect::<Result<_, ModelParseError>>()?;
 
@@ -183,7 +183,16 @@ where
 {
     use nom::combinator::all_consuming;
 
-    move |input: &'a [u8]| all_consuming(f).parse(&input[range.0..range.1 + 1])
+    move |input: &'a [u8]| {
+        let section = range
+            .1
+            .checked_add(1)
+            .and_then(|end| input.get(range.0..end))
+            .ok_or_else(|| {
+                nom::Err::Failure(F::Error::from_error_kind(input, nom::error::ErrorKind::Eof))
+            })?;
+        all_consuming(f).parse(section)
+    }
 }
 
 #[cfg(test)]
